@@ -46,22 +46,25 @@ FAMILIES = {
     "boundary": ("KadCache_boundary.cfg", "KadCache_boundary_deep.cfg", "KadCacheGen_boundary.cfg", "KadCacheCover_boundary.cfg", "KadCacheTrace_boundary.cfg"),
     "wide": ("KadCache_wide.cfg", "KadCache_wide_deep.cfg", "KadCacheGen_wide.cfg", "KadCacheCover_wide.cfg", "KadCacheTrace_wide.cfg"),
     "k32": (None, None, "KadCacheGen_k32.cfg", None, "KadCacheTrace_k32.cfg"),
+    # focus: tiny universe; EVERY transition of its model (edge cover) is executed on the real cache
+    "focus": ("KadCache_focus.cfg", "KadCache_focus.cfg", "KadCacheGen_focus.cfg", None, "KadCacheTrace_focus.cfg"),
 }
+EDGE = {"focus": "KadCacheEdge_focus.cfg"}
 
 TIERS = {
-    "quick": dict(sim={"small": 700, "boundary": 150, "wide": 250, "k32": 24}, deep=False, cover=[]),
-    "thorough": dict(sim={"small": 6000, "boundary": 1500, "wide": 2500, "k32": 600}, deep=True, cover=["small", "boundary"],
-                     gen_parts={"k32": 6, "small": 2}),
+    "quick": dict(sim={"small": 600, "boundary": 150, "wide": 200, "k32": 24, "focus": 1200}, deep=False, cover=[], edge_stride=40),
+    "thorough": dict(sim={"small": 6000, "boundary": 1500, "wide": 2500, "k32": 600, "focus": 6000}, deep=True, cover=["small", "boundary"],
+                     gen_parts={"k32": 6, "small": 2}, edge_stride=1),
 }
 
 
-def hist_to_behaviour(i, hist):
+def hist_to_behaviour(i, hist, silent=0):
     init = hist[0]
     ops = []
     for o in hist[1:]:
         ops.append(dict(op=o["op"], key=o.get("key", []), v=o.get("v", 0), t=o.get("t", 0), e=o.get("e", 0)))
     return dict(id=i, locus=init["locus"], max=init["max"], min=init["min"], prefill=sorted(init["prefill"]),
-                keys=sorted(init["keys"]), queries=sorted(init["queries"]), ops=ops)
+                keys=sorted(init["keys"]), queries=sorted(init["queries"]), ops=ops, silent=min(silent, len(ops)))
 
 
 def model_check_and_generate(tier, d, stats):
@@ -93,6 +96,22 @@ def model_check_and_generate(tier, d, stats):
         core.tlc_ok_or_inconclusive(res, "Cover " + fam)
         return fam, [x[1] for x in res.printed("BEH")]
 
+    def gen_edge(fam):
+        """Every transition of the family's model: TLC prints, per generated transition, the BFS-shortest
+        path to its source state followed by the transition. The prefix is executed silently (its own
+        transitions are other edges); the quick tier takes a seeded sample, but always every edge whose
+        operation removes entries (expire / delete) or evicts."""
+        res = core.tlc("KadCacheGen", EDGE[fam], workers=1, timeout=3000, label="edge-" + fam, heap="6g")
+        core.tlc_ok_or_inconclusive(res, "Edge " + fam)
+        hs = [x[1] for x in res.printed("BEH")]
+        stride = T["edge_stride"]
+        keep = []
+        for i, h in enumerate(hs):
+            if stride == 1 or (i + core.seed()) % stride == 0:
+                keep.append(h)
+        stats.setdefault("edges", {})[fam] = dict(total=len(hs), executed=len(keep))
+        return fam, keep
+
     def gen_dist():
         rd = core.tlc("KadDist", "KadDistGen.cfg", workers=1, timeout=600, short=True)
         core.tlc_ok_or_inconclusive(rd, "KadDistGen")
@@ -106,7 +125,10 @@ def model_check_and_generate(tier, d, stats):
                 side.append(ex.submit(mc, fam, deep if T["deep"] else mcfg))
         side.append(ex.submit(mc_dist))
         futs = []
+        edge_futs = [ex.submit(gen_edge, fam) for fam in EDGE]
         for fam in FAMILIES:
+            if FAMILIES[fam][2] is None:
+                continue
             n = T["sim"][fam]
             parts = T.get("gen_parts", {}).get(fam, 1)
             for i in range(parts):
@@ -118,22 +140,25 @@ def model_check_and_generate(tier, d, stats):
             fam, hs = f.result()
             beh.setdefault(fam, []).extend(hs)
         cases = fdist.result()
+        edges = dict(f.result() for f in edge_futs)
     dist_path = os.path.join(d, "dist_cases.ndjson")
     with open(dist_path, "w") as f:
         for c in cases:
             f.write(json.dumps(dict(x=c[1], a=c[2], b=c[3])) + "\n")
     stats["dist_cases"] = len(cases)
     out, allb, bid = {}, {}, 0
+    for fam, hs in edges.items():
+        beh.setdefault(fam, [])
     for fam, hs in beh.items():
         p = os.path.join(d, "beh_%s.ndjson" % fam)
         with open(p, "w") as f:
-            for h in hs:
+            for h, silent in [(h, 0) for h in hs] + [(h, len(h) - 2) for h in edges.get(fam, [])]:
                 bid += 1
-                b = hist_to_behaviour(bid, h)
+                b = hist_to_behaviour(bid, h, silent=silent)
                 allb[bid] = b
                 f.write(json.dumps(b) + "\n")
         out[fam] = p
-        stats["behaviours"][fam] = len(hs)
+        stats["behaviours"][fam] = len(hs) + len(edges.get(fam, []))
     return out, dist_path, allb, side, ex
 
 
